@@ -118,6 +118,9 @@ def spec_of(case):
             "shared_cf": case["bath"] in ("same", "cold"),
             "tensor": case["tensor"] if case["tensor"] == "td" else bool(case["tensor"]),
             "rwa": case.get("rwa", "system"),
+            # common ground-state energy of all molecules (1/cm): transition energies, and with them
+            # every line position, do not depend on it
+            "e0": float(case.get("e0", 0.0)),
             "Nt": case["Nt"], "dt": case["dt"]}
 
 
@@ -176,7 +179,8 @@ def build(spec, ta=None):
     mols = []
     with qr.energy_units("1/cm"):
         for k in range(n):
-            m = qr.Molecule(elenergies=[0.0, float(spec["E"][k])])
+            e0 = float(spec.get("e0", 0.0))
+            m = qr.Molecule(elenergies=[e0, e0 + float(spec["E"][k])])
             m.set_dipole(0, 1, list(spec["dip"][k]))
             mols.append(m)
     for k in range(n):
@@ -764,6 +768,12 @@ def sections(tier):
         agg += product({"kind": ["aggregate"], "N": [n], "eset": esets, "coupling": coup,
                         "geom": _geoms(n, tier), "bath": baths if n > 1 else nosite,
                         "tensor": [False], "axis": AXES[tier]})
+    # non-zero common ground-state energy (coupled aggregates, one geometry/bath/axis each)
+    for n in (2, 3):
+        for coup in (["chain60"] if quick else ["chain60", "dd", "chain-120"]):
+            agg += product({"kind": ["aggregate"], "N": [n], "eset": ["wide"], "coupling": [coup],
+                            "geom": _geoms(n, tier)[:1], "bath": ["same"], "tensor": [False],
+                            "axis": AXES[tier][:1], "e0": [150.0, -300.0]})
     sec["aggregate"] = agg
     ten = []
     for n in (2, 3):
